@@ -170,7 +170,7 @@ func rulesC20(c *Ctx) {
 		for _, g := range c.OpFuncs(f) {
 			for _, ci := range Calls(g) {
 				n := c.P.Describe(ci).Name
-				if n == "slices.Sort" || strings.HasPrefix(n, "sort.") || n == "slices.Sorted" {
+				if strings.HasPrefix(n, "slices.Sort") || strings.HasPrefix(n, "sort.") {
 					okSort = true
 				}
 			}
@@ -765,7 +765,9 @@ func (c *Ctx) c20CacheLifetime(set ssa.CallInstruction) (bool, string) {
 	}
 	p := "P:" + callee.Params[3].Name()
 	e := c.P.OriginsOf(callee).Of(c.P.Describe(add).Args[0])
-	big := func(s string, min int) bool { return len(strings.TrimLeft(s, "0")) >= min && !strings.HasPrefix(s, "-") }
+	big := func(s string, min int) bool {
+		return len(strings.TrimLeft(s, "0")) >= min && !strings.HasPrefix(s, "-")
+	}
 	switch es := e.String(); {
 	case es == p:
 		return big(arg.S, 10), "expiry = now + " + arg.S + " ns"
